@@ -338,22 +338,22 @@ spec:
 
 func handChart() chartSeed {
 	return chartSeed{name: "parent", files: map[string][]byte{
-		"Chart.yaml":                  []byte(handChartYAML),
-		"values.yaml":                 []byte(handValues),
-		"values.schema.json":          []byte(handSchema),
-		"templates/cm.yaml":           []byte(handTemplates[0]),
-		"templates/_helpers.tpl":      []byte(handTemplates[1]),
-		"templates/hook.yaml":         []byte(handTemplates[2]),
-		"templates/NOTES.txt":         []byte(handTemplates[3]),
-		".helmignore":                 []byte(handIgnore),
-		"Chart.lock":                  []byte("dependencies:\n- name: sub\n  repository: https://example.com/charts\n  version: 0.1.0\ndigest: sha256:0000000000000000000000000000000000000000000000000000000000000000\ngenerated: \"2024-01-01T00:00:00Z\"\n"),
-		"README.md":                   []byte("# parent\n"),
-		"crds/crd.yaml":               []byte("apiVersion: apiextensions.k8s.io/v1\nkind: CustomResourceDefinition\nmetadata:\n  name: widgets.example.com\nspec:\n  group: example.com\n  names: {kind: Widget, plural: widgets}\n  scope: Namespaced\n  versions: [{name: v1, served: true, storage: true}]\n"),
-		"charts/sub/Chart.yaml":       []byte(handSubChartYAML),
-		"charts/sub/values.yaml":      []byte(handSubValues),
+		"Chart.yaml":                    []byte(handChartYAML),
+		"values.yaml":                   []byte(handValues),
+		"values.schema.json":            []byte(handSchema),
+		"templates/cm.yaml":             []byte(handTemplates[0]),
+		"templates/_helpers.tpl":        []byte(handTemplates[1]),
+		"templates/hook.yaml":           []byte(handTemplates[2]),
+		"templates/NOTES.txt":           []byte(handTemplates[3]),
+		".helmignore":                   []byte(handIgnore),
+		"Chart.lock":                    []byte("dependencies:\n- name: sub\n  repository: https://example.com/charts\n  version: 0.1.0\ndigest: sha256:0000000000000000000000000000000000000000000000000000000000000000\ngenerated: \"2024-01-01T00:00:00Z\"\n"),
+		"README.md":                     []byte("# parent\n"),
+		"crds/crd.yaml":                 []byte("apiVersion: apiextensions.k8s.io/v1\nkind: CustomResourceDefinition\nmetadata:\n  name: widgets.example.com\nspec:\n  group: example.com\n  names: {kind: Widget, plural: widgets}\n  scope: Namespaced\n  versions: [{name: v1, served: true, storage: true}]\n"),
+		"charts/sub/Chart.yaml":         []byte(handSubChartYAML),
+		"charts/sub/values.yaml":        []byte(handSubValues),
 		"charts/sub/values.schema.json": []byte(handSchema2),
-		"charts/sub/templates/cm.yaml": []byte("apiVersion: v1\nkind: ConfigMap\nmetadata:\n  name: {{ .Release.Name }}-{{ .Chart.Name }}\ndata:\n  region: {{ .Values.global.region | default \"none\" }}\n  fromParent: {{ .Values.fromParent | quote }}\n"),
-		userValuesFile:                []byte(handUserValues),
+		"charts/sub/templates/cm.yaml":  []byte("apiVersion: v1\nkind: ConfigMap\nmetadata:\n  name: {{ .Release.Name }}-{{ .Chart.Name }}\ndata:\n  region: {{ .Values.global.region | default \"none\" }}\n  fromParent: {{ .Values.fromParent | quote }}\n"),
+		userValuesFile:                  []byte(handUserValues),
 	}}
 }
 
